@@ -97,7 +97,7 @@ def run(ctx):
             rr, mm, lc = rs[pos], rs[pos + 1], rs[pos + 2]
             rp = {"events": b[:n + 1]}
             hist_ops = [(x["op"], x["t"], x["kind"], "other-thread" if x["thread"] else "same-thread") for x in b[:n + 1]]
-            if any("panic" in x for x in (rr, mm, lc)) or "ok" not in rr:
+            if any("panic" in x for x in (rr, mm, lc)) or any("ok" not in x for x in (rr, mm, lc)):
                 ctx.violation("panic-or-error", "history %s: %s" % (hist_ops, rr), rp); ok = False; break
             cnt, sm = mm["ok"]["hist"]["count"], fval(mm["ok"]["hist"]["sum"])
             lp = lc["ok"]
